@@ -111,7 +111,7 @@ def parseLine (r : Reply) (line : Bytes) : Except PyExc Reply :=
     | 45 :: t => (45, t)
     | _ => (0, rest1)
   let setsCode := g1.isSome && g2 == 32
-  if setsCode && r.code.isSome then .error .AssertionError
+  if setsCode && r.code.isSome then .error .ProtocolError
   else
     let code := if setsCode then g1 else r.code
     let text := match r.text with
@@ -138,7 +138,7 @@ def readReplyLoop {S : Type} (rl : S → Bytes × S) : Nat → Reply → List By
   | 0, _, _, _ => .fuel
   | n + 1, r, seen, s =>
     let (line, s') := rl s
-    if lineTooLong line then .err .ValueError
+    if lineTooLong line then .err .ProtocolError
     else if line.getLast? ≠ some 10 then .err .NetworkError
     else
       match parseData r line with
